@@ -35,6 +35,16 @@ def rx_event_of(w, ei):
     return None
 
 
+def rx_part(rx, kind, pid):
+    """the part of a delivery (a single packet, or one packet of a coalesced segment) of that kind and id"""
+    if rx is None:
+        return None
+    for d in rx.d.get("parts") or [rx.d["desc"]]:
+        if d and d[0] == kind and len(d) > 1 and d[1] == pid:
+            return d
+    return None
+
+
 def timers_before_after(w, F, step):
     a = F.step_end.get(step - 1)
     b = F.step_end.get(step)
@@ -77,14 +87,14 @@ def mon_c05(w, F, vd):
             ei = fires[0][0]
             rx = rx_event_of(w, ei)
             want = "PUBACK" if ri.qos == 1 else "PUBCOMP"
-            d = rx.d["desc"] if rx is not None else None
-            if d is None or d[0] != want or d[1] != r.msgid or w.conns[rx.c].a != ri.a:
+            d = rx_part(rx, want, r.msgid)
+            if d is None or w.conns[rx.c].a != ri.a:
                 vd.bad("C05.success_without_ack", "publish #%d qos %d succeeded in context %r" % (
                     r.rid, ri.qos, w.log[ei].ctx[:3] if w.log[ei].ctx else None))
             else:
                 if not ri.tx or ri.tx[0].ei > ei:
                     vd.bad("C05.success_before_tx", "publish #%d succeeded before its first transmission" % r.rid)
-                if ri.qos == 2 and not ri.got("PUBREC", before_ei=rx.i):
+                if ri.qos == 2 and not any(k_[3] == "PUBREC" and k_[0] <= rx.i for k_ in ri.acks):
                     vd.bad("C05.pubcomp_without_pubrec", "publish #%d qos 2 succeeded on PUBCOMP with no PUBREC" % r.rid)
             if fires[0][4] != r.msgid:
                 vd.bad("C05.callback_value", "publish #%d: callback value %r, msgId %r" % (r.rid, fires[0][4], r.msgid))
@@ -742,8 +752,8 @@ def mon_c07(w, F, vd):
             if e.d["out"] == "ok":
                 rx = rx_event_of(w, e.i)
                 want = "SUBACK" if r.kind == "subscribe" else "UNSUBACK"
-                d = rx.d["desc"] if rx is not None else None
-                if d is None or d[0] != want or d[1] != r.msgid or w.conns[rx.c].a != a:
+                d = rx_part(rx, want, r.msgid)
+                if d is None or w.conns[rx.c].a != a:
                     vd.bad("C07.success_without_ack", "%s #%d succeeded in context %r" % (r.kind, rid, e.ctx[:3] if e.ctx else None))
                 else:
                     val = r.fires[0][4]
